@@ -42,4 +42,47 @@ theorem zeroPad_head (x : UInt8) (xs : Bytes) (n : Nat) : (zeroPad (x :: xs) n).
 theorem zeroPad_length {a : Bytes} {n : Nat} (h : a.length ≤ n) : (zeroPad a n).length = n := by
   simp [zeroPad]; omega
 
+/-- the test of one `case` of the selection `switch`, as inequalities -/
+theorem ok_iff (i : WinIn) (e : Nat × Nat) :
+    i.ok e = true ↔
+      (i.awBegin ≤ absTime e.1 i.ts ∧ absTime e.1 i.ts ≤ i.awEnd) ∧
+      ((e.1 : Int) * nsPerSec ≤ absTime e.1 i.ts ∧
+       absTime e.1 i.ts ≤ (e.2 : Int) * nsPerSec + gracePeriodNs) := by
+  simp only [WinIn.ok, contains, withinGrace, Bool.and_eq_true, decide_eq_true_eq]
+
+/-- away from the uint32 wrap (year 2106) the three candidate epochs are the aligned intervals
+    around the receiver's clock -/
+theorem epochs_nowrap (i : WinIn) (hD : 0 < i.duration)
+    (hidx : 1 ≤ i.idx) (hwrap : (i.idx + 2) * i.duration < 4294967296) :
+    ∃ P : Int, 0 ≤ P - i.duration ∧ P + 2 * i.duration < 4294967296 ∧
+      i.epoch (-1) = ((P - i.duration).toNat, P.toNat) ∧
+      i.epoch 0 = (P.toNat, (P + i.duration).toNat) ∧
+      i.epoch 1 = ((P + i.duration).toNat, (P + 2 * i.duration).toNat) := by
+  have e1 : (i.idx + 2) * i.duration = i.idx * i.duration + 2 * i.duration := by rw [Int.add_mul]
+  have hpos : 0 ≤ (i.idx - 1) * i.duration := Int.mul_nonneg (by omega) (by omega)
+  have e0 : (i.idx - 1) * i.duration = i.idx * i.duration - i.duration := by rw [Int.sub_mul, Int.one_mul]
+  have a : (i.idx + -1) * i.duration = i.idx * i.duration - i.duration := by
+    rw [Int.add_mul]; omega
+  have c : (i.idx + 1) * i.duration = i.idx * i.duration + i.duration := by
+    rw [Int.add_mul, Int.one_mul]
+  refine ⟨i.idx * i.duration, by omega, by omega, ?_, ?_, ?_⟩
+  · unfold WinIn.epoch newEpoch u32
+    rw [a]
+    generalize i.idx * i.duration = P at *
+    generalize i.duration = D at *
+    simp only [Prod.mk.injEq]
+    omega
+  · unfold WinIn.epoch newEpoch u32
+    rw [Int.add_zero]
+    generalize i.idx * i.duration = P at *
+    generalize i.duration = D at *
+    simp only [Prod.mk.injEq]
+    omega
+  · unfold WinIn.epoch newEpoch u32
+    rw [c]
+    generalize i.idx * i.duration = P at *
+    generalize i.duration = D at *
+    simp only [Prod.mk.injEq]
+    omega
+
 end Scion.Drkey
